@@ -663,6 +663,164 @@ theorem shadow_final {a : St O} {z : St (shadowOps O zme)} (ai : AInv a) (zi : Z
   exact p3
 
 
+/-! ### tie: what the shadow is given is what the participant really broadcasts -/
+
+/-- the callbacks and messages a delivery produces -/
+def stepOuts (s : St O) : Dl → List Out
+  | .bcast o m => (FvssQ.bcastBody s o m).2
+  | .priv o m => (FvssQ.privBody s o m).2
+
+/-- the broadcast messages among the outputs -/
+def bcasts : List Out → List Bytes
+  | [] => []
+  | .bcast m :: l => m :: bcasts l
+  | _ :: l => bcasts l
+
+@[simp] theorem bcasts_nil : bcasts [] = [] := rfl
+@[simp] theorem bcasts_flag (i : Nat) (l : List Out) : bcasts (.flag i :: l) = bcasts l := rfl
+@[simp] theorem bcasts_disq (i : Nat) (l : List Out) : bcasts (.disq i :: l) = bcasts l := rfl
+@[simp] theorem bcasts_send (i : Nat) (m : Bytes) (l : List Out) : bcasts (.send i m :: l) = bcasts l := rfl
+@[simp] theorem bcasts_bcast (m : Bytes) (l : List Out) : bcasts (.bcast m :: l) = m :: bcasts l := rfl
+theorem bcasts_append (l1 l2 : List Out) : bcasts (l1 ++ l2) = bcasts l1 ++ bcasts l2 := by
+  induction l1 with
+  | nil => rfl
+  | cons x t ih => cases x <;> simp [ih]
+
+theorem bc_bcasts (t : St O) : bcasts (FvssQ.buildComplaint t).2 = if ownRecv t then [] else [cmplMsg t.dealer] := by
+  unfold FvssQ.buildComplaint ownRecv cmplMsg
+  cases hf : t.find t.me with
+  | none => simp [recvOf]
+  | some c =>
+    simp only [recvOf]
+    by_cases hr : c.received = true
+    · simp [hr]
+    · simp only [hr, Bool.false_eq_true, if_false]
+      repeat' (first | split | (simp only []; split))
+      all_goals simp [bcasts_append]
+
+
+theorem L_same (s t : St O) (c : Bytes) (h : ownRecv t = ownRecv s) :
+    ([] : List Bytes) = if ownRecv s then [] else if ownRecv t then [c] else [] := by
+  rw [h]; cases ownRecv s <;> rfl
+
+theorem L_bc (s t : St O) (h1 : ownRecv t = ownRecv s) (hd : t.dealer = s.dealer) :
+    bcasts (FvssQ.buildComplaint t).2 =
+      if ownRecv s then [] else if ownRecv (FvssQ.buildComplaint t).1 then [cmplMsg s.dealer] else [] := by
+  rw [bc_bcasts, ownRecv_bc, h1, hd]
+  cases ownRecv s <;> rfl
+
+/-- the broadcasts among the outputs `r.2` of a handler run from `s` are exactly the complaint, if and only if
+    the handler set the `received` flag of the participant's own entry -/
+def Good (s : St O) (r : St O × List Out) : Prop :=
+  bcasts r.2 = if ownRecv s then [] else if ownRecv r.1 then [cmplMsg s.dealer] else []
+
+theorem good_same (s t : St O) (outs : List Out) (h : ownRecv t = ownRecv s) (ho : bcasts outs = []) : Good s (t, outs) := by
+  unfold Good; rw [ho]; exact L_same s t _ h
+
+theorem good_bc (s t : St O) (h1 : ownRecv t = ownRecv s) (hd : t.dealer = s.dealer) : Good s (FvssQ.buildComplaint t) :=
+  L_bc s t h1 hd
+
+theorem good_bc_flag (s t : St O) (i : Nat) (h1 : ownRecv t = ownRecv s) (hd : t.dealer = s.dealer) :
+    Good s ((FvssQ.buildComplaint t).1, (FvssQ.buildComplaint t).2 ++ [.flag i]) := by
+  unfold Good
+  rw [bcasts_append]
+  simp only [bcasts_flag, bcasts_nil, List.append_nil]
+  exact L_bc s t h1 hd
+
+theorem rs_good (s : St O) (o : Nat) (d : Bytes) : Good s (FvssQ.receiveShare s o d) := by
+  unfold FvssQ.receiveShare FvssQ.badShare
+  repeat' (first | split | (simp only []; split))
+  all_goals first
+    | exact good_same _ _ _ (ownRecv_congr rfl rfl) rfl
+    | exact good_bc_flag _ _ _ (ownRecv_congr rfl rfl) rfl
+    | exact good_bc _ _ (ownRecv_congr rfl rfl) rfl
+
+theorem rv_good (s : St O) (o : Nat) (d : Bytes) : Good s (FvssQ.receiveVerifVector s o d) := by
+  unfold FvssQ.receiveVerifVector
+  repeat' (first | split | (simp only []; split))
+  all_goals first
+    | exact good_same _ _ _ (ownRecv_congr rfl rfl) rfl
+    | exact good_bc _ _ (ownRecv_congr rfl rfl) rfl
+
+theorem rc_no_bcast (s : St O) (hme : s.me ≠ s.dealer) (o : Nat) (d : Bytes) : bcasts (FvssQ.receiveComplaint s o d).2 = [] := by
+  unfold FvssQ.receiveComplaint
+  repeat' (first | split | (simp only []; split))
+  all_goals first | rfl | (simp only [St.setC] at *; contradiction) | simp_all
+
+theorem ra_no_bcast (s : St O) (o : Nat) (d : Bytes) : bcasts (FvssQ.receiveComplaintAnswer s o d).2 = [] := by
+  unfold FvssQ.receiveComplaintAnswer
+  repeat' (first | split | (simp only []; split))
+  all_goals first | rfl | simp_all
+
+
+theorem rc_good (s : St O) (hme : s.me ≠ s.dealer) (o : Nat) (ho : s.me ≠ o) (d : Bytes) : Good s (FvssQ.receiveComplaint s o d) := by
+  have hb := rc_no_bcast s hme o d
+  have hs : ownRecv (FvssQ.receiveComplaint s o d).1 = ownRecv s := by
+    by_cases hct : s.complaintsTimeout = true
+    · unfold FvssQ.receiveComplaint; rw [if_pos hct]
+    · have hct' : s.complaintsTimeout = false := by simpa using hct
+      rw [rc_eq s o d hme hct']
+      cases parseC s d with
+      | none => simp only []; split <;> exact ownRecv_congr rfl rfl
+      | some ce =>
+        simp only []
+        split
+        · rfl
+        · split
+          · rfl
+          · rw [rcOk_upd]; exact ownRecv_applyUpd_other s o _ ho
+  unfold Good; rw [hb]; exact L_same s _ _ hs
+
+theorem ra_good (s : St O) (o : Nat) (d : Bytes) : Good s (FvssQ.receiveComplaintAnswer s o d) := by
+  have hb := ra_no_bcast s o d
+  have hs : ownRecv (FvssQ.receiveComplaintAnswer s o d).1 = ownRecv s := by
+    by_cases hod : o = s.dealer
+    · subst hod
+      rw [ra_eq]
+      cases parseA s d with
+      | none => exact ownRecv_congr rfl rfl
+      | some p =>
+        obtain ⟨k, sc⟩ := p
+        simp only []
+        rw [raOk_upd]; exact ownRecv_raOk s k _ _ _ _ sc
+    · unfold FvssQ.receiveComplaintAnswer; rw [if_pos hod]
+  unfold Good; rw [hb]; exact L_same s _ _ hs
+
+/-- **the participant broadcasts its complaint exactly when its own table entry gets the `received` flag**:
+    tie between the deliveries given to the shadow (`emitted`) and the real outputs of the handlers -/
+theorem step_good (a : St O) (hme : a.me ≠ a.dealer) (e : Dl) : Good a (step a e, stepOuts a e) := by
+  cases e with
+  | priv o m =>
+    show Good a (FvssQ.privBody a o m)
+    unfold FvssQ.privBody
+    split
+    · exact good_same _ _ _ rfl rfl
+    · split
+      · exact good_same _ _ _ rfl rfl
+      · exact rs_good a o m
+  | bcast o m =>
+    show Good a (FvssQ.bcastBody a o m)
+    unfold FvssQ.bcastBody
+    split
+    · exact good_same _ _ _ rfl rfl
+    · rename_i ho
+      split
+      · exact good_same _ _ _ rfl rfl
+      · have hbad : Good a ((if o = a.dealer then { a with disqualified := true } else a), [Out.disq o]) := by
+          apply good_same _ _ _ _ rfl
+          split <;> exact ownRecv_congr rfl rfl
+        simp only []
+        split
+        · exact hbad
+        · split
+          · exact rv_good a o _
+          · split
+            · exact rc_good a hme o ho _
+            · split
+              · exact ra_good a o _
+              · exact hbad
+
+
 /-! ### the public result of `End`, and agreement -/
 
 theorem final_relP (s : St O) (inv : Inv s) (r1 r1' r2 r2' r3 r3' : List Dl)
@@ -783,5 +941,223 @@ theorem agreement_pub (size threshold dealer ma mb : Nat) (hd : dealer < size) (
   have rel := final_relP (freshZ O size threshold size dealer) (inv_freshZ size threshold size dealer hz) _ _ _ _ _ _ h1 h2 h3
   rw [pubRes_pubEq fA, pubRes_pubEq fB]
   exact pubRes_relP rel
+
+
+/-! ### the hypothesis in the vocabulary of the network -/
+
+theorem tstep_good (a : St O) : Good a (FvssQ.timeoutBody a) := by
+  unfold FvssQ.timeoutBody FvssQ.setSharesTimeout FvssQ.setComplaintsTimeout
+  repeat' (first | split | (simp only []; split))
+  all_goals first
+    | exact good_same _ _ _ (ownRecv_congr rfl rfl) rfl
+    | exact good_bc _ _ (ownRecv_congr rfl rfl) rfl
+
+theorem emitted_of_good (a a' : St O) (outs : List Out) (h : Good a (a', outs)) :
+    emitted a a' = (bcasts outs).map (Dl.bcast a.me) := by
+  unfold Good at h
+  unfold emitted zCmpl
+  rw [h]
+  cases ownRecv a <;> cases ownRecv a' <;> rfl
+
+/-- everything the participant broadcasts while the deliveries of a round are handled, in order -/
+def roundOuts (a : St O) : List Dl → List Bytes
+  | [] => []
+  | e :: l => bcasts (stepOuts a e) ++ roundOuts (step a e) l
+
+/-- what the participant broadcasts at a timeout -/
+def timeoutOuts (a : St O) : List Bytes := bcasts (FvssQ.timeoutBody a).2
+
+theorem stream_append (l1 l2 : List Dl) (c : Nat × Bool) : stream (l1 ++ l2) c = stream l1 c ++ stream l2 c := by
+  unfold stream; rw [List.filter_append]
+
+theorem stream_map_bcast (k : Nat) (ms : List Bytes) (c : Nat × Bool) :
+    stream (ms.map (Dl.bcast k)) c = if c = (k, false) then ms.map (Dl.bcast k) else [] := by
+  unfold stream
+  induction ms with
+  | nil => simp
+  | cons m t ih =>
+    rw [List.map_cons, List.filter_cons, ih]
+    by_cases hc : c = (k, false)
+    · subst hc; simp [Dl.chan, Dl.sender, Dl.isPriv]
+    · have : ((Dl.bcast k m).chan == c) = false := by
+        simp only [Dl.chan, Dl.sender, Dl.isPriv, beq_eq_false_iff_ne, ne_eq]
+        exact fun h => hc h.symm
+      simp [this, hc]
+
+theorem stream_pubPart (a : St O) (e : Dl) (c : Nat × Bool) :
+    stream (pubPart a e) c = if c.2 = true ∨ c.1 = a.me then [] else stream [e] c := by
+  obtain ⟨o, p⟩ := c
+  cases e with
+  | priv o' m =>
+    rw [pubPart_priv]
+    unfold stream
+    cases p
+    · simp [Dl.chan, Dl.isPriv]
+    · simp
+  | bcast o' m =>
+    rw [pubPart_bcast]
+    unfold stream
+    by_cases h1 : o' = a.me
+    · rw [if_pos h1]
+      cases p
+      · by_cases h2 : o = a.me
+        · simp [h2]
+        · have : ¬ (o' = o) := by rw [h1]; exact fun h => h2 h.symm
+          simp [h2, Dl.chan, Dl.sender, Dl.isPriv, this]
+      · simp
+    · rw [if_neg h1]
+      cases p
+      · by_cases h2 : o = a.me
+        · subst h2
+          simp [Dl.chan, Dl.sender, Dl.isPriv, h1]
+        · simp [h2]
+      · simp [Dl.chan, Dl.isPriv]
+
+theorem step_me (a : St O) (hme : a.me ≠ a.dealer) (e : Dl) : (step a e).me = a.me ∧ (step a e).dealer = a.dealer :=
+  ⟨(step_cfg a hme e).1, (step_cfg a hme e).2.1⟩
+
+/-- **the streams of the shadow's round**: on the participant's own channel, exactly what the participant
+    broadcast; on every other broadcast channel, what the participant received; nothing on private channels -/
+theorem stream_zSched (a : St O) (hme : a.me ≠ a.dealer) (l : List Dl) (c : Nat × Bool) :
+    stream (zSched a l) c =
+      if c.2 = true then [] else if c.1 = a.me then (roundOuts a l).map (Dl.bcast a.me) else stream l c := by
+  induction l generalizing a with
+  | nil =>
+    show stream [] c = _
+    unfold stream roundOuts
+    simp
+  | cons e t ih =>
+    have hs := step_me a hme e
+    have ih' := ih (step a e) (by rw [hs.1, hs.2]; exact hme)
+    show stream (zEvents a e ++ zSched (step a e) t) c = _
+    unfold zEvents
+    rw [stream_append, stream_append, ih', stream_pubPart, emitted_of_good a _ _ (step_good a hme e), stream_map_bcast, hs.1]
+    obtain ⟨o, p⟩ := c
+    show (if p = true ∨ o = a.me then [] else stream [e] (o, p)) ++
+      (if (o, p) = (a.me, false) then (bcasts (stepOuts a e)).map (Dl.bcast a.me) else []) ++
+      (if p = true then [] else if o = a.me then (roundOuts (step a e) t).map (Dl.bcast a.me) else stream t (o, p)) =
+      if p = true then [] else if o = a.me then (roundOuts a (e :: t)).map (Dl.bcast a.me) else stream (e :: t) (o, p)
+    cases p
+    · by_cases h2 : o = a.me
+      · subst h2
+        simp [roundOuts]
+      · have : ¬ ((o, false) = (a.me, false)) := by
+          intro h; exact h2 (Prod.mk.inj h).1
+        simp only [Bool.false_eq_true, false_or, h2, if_false, this, List.append_nil]
+        rw [← stream_append]; rfl
+    · have : ¬ ((o, true) = (a.me, false)) := by
+        intro h; cases (Prod.mk.inj h).2
+      simp [this]
+
+
+/-- what the participant broadcasts in each of the three rounds (a broadcast made at a timeout belongs to the
+    next round) -/
+def bR1 (a : St O) (r1 : List Dl) : List Bytes := roundOuts a r1
+def bR2 (a : St O) (r1 r2 : List Dl) : List Bytes :=
+  timeoutOuts (runList a r1) ++ roundOuts (tstep (runList a r1)) r2
+def bR3 (a : St O) (r1 r2 r3 : List Dl) : List Bytes :=
+  timeoutOuts (runList (tstep (runList a r1)) r2) ++ roundOuts (tstep (runList (tstep (runList a r1)) r2)) r3
+
+theorem runList_me (a : St O) (inv : Inv a) (l : List Dl) : (runList a l).me = a.me ∧ (runList a l).dealer = a.dealer := by
+  induction l generalizing a with
+  | nil => exact ⟨rfl, rfl⟩
+  | cons e t ih =>
+    have c := step_me a inv.hme e
+    have := ih (step a e) (inv_step a inv e)
+    exact ⟨this.1.trans c.1, this.2.trans c.2⟩
+
+theorem stream_emitted_tstep (a : St O) (c : Nat × Bool) :
+    stream (emitted a (tstep a)) c = if c = (a.me, false) then (timeoutOuts a).map (Dl.bcast a.me) else [] := by
+  have h : Good a (tstep a, (FvssQ.timeoutBody a).2) := tstep_good a
+  rw [emitted_of_good a _ _ h, stream_map_bcast]
+  rfl
+
+theorem stream_round (a0 a : St O) (hme : a.me ≠ a.dealer) (hm : a.me = a0.me) (pre : List Bytes) (l : List Dl) (c : Nat × Bool)
+    (E : List Dl) (hE : stream E c = if c = (a0.me, false) then pre.map (Dl.bcast a0.me) else []) :
+    stream (E ++ zSched a l) c =
+      if c.2 = true then [] else if c.1 = a0.me then (pre ++ roundOuts a l).map (Dl.bcast a0.me) else stream l c := by
+  rw [stream_append, hE, stream_zSched a hme l c, hm]
+  obtain ⟨o, p⟩ := c
+  cases p
+  · by_cases h2 : o = a0.me
+    · subst h2; simp
+    · have : ¬ ((o, false) = (a0.me, false)) := fun h => h2 (Prod.mk.inj h).1
+      simp [h2, this]
+  · have : ¬ ((o, true) = (a0.me, false)) := fun h => by cases (Prod.mk.inj h).2
+    simp [this]
+
+/-- the streams of the shadow's three rounds, in terms of what the participant received and broadcast -/
+theorem stream_zR (a : St O) (ai : AInv a) (r1 r2 r3 : List Dl) (c : Nat × Bool) :
+    (stream (zR1 a r1) c = if c.2 = true then [] else if c.1 = a.me then (bR1 a r1).map (Dl.bcast a.me) else stream r1 c) ∧
+    (stream (zR2 a r1 r2) c = if c.2 = true then [] else if c.1 = a.me then (bR2 a r1 r2).map (Dl.bcast a.me) else stream r2 c) ∧
+    (stream (zR3 a r1 r2 r3) c = if c.2 = true then [] else if c.1 = a.me then (bR3 a r1 r2 r3).map (Dl.bcast a.me) else stream r3 c) := by
+  have a1 := ainv_runList ai r1
+  have a1' := ainv_tstep a1
+  have a2 := ainv_runList a1' r2
+  have a2' := ainv_tstep a2
+  have m1 : (runList a r1).me = a.me := (runList_me a ai.inv r1).1
+  have m1' : (tstep (runList a r1)).me = a.me := by rw [(tstep_me_size _).1, m1]
+  have m2 : (runList (tstep (runList a r1)) r2).me = a.me := by rw [(runList_me _ a1'.inv r2).1, m1']
+  have m2' : (tstep (runList (tstep (runList a r1)) r2)).me = a.me := by rw [(tstep_me_size _).1, m2]
+  refine ⟨stream_zSched a ai.inv.hme r1 c, ?_, ?_⟩
+  · unfold zR2 bR2
+    apply stream_round a _ a1'.inv.hme m1' (timeoutOuts (runList a r1)) r2 c
+    rw [stream_emitted_tstep, m1]
+  · unfold zR3 bR3
+    apply stream_round a _ a2'.inv.hme m2' (timeoutOuts (runList (tstep (runList a r1)) r2)) r3 c
+    rw [stream_emitted_tstep, m2]
+
+/-- **reliable broadcast and round synchrony for one round, seen by two honest participants `ma` and `mb`**:
+    every broadcast of a third participant (the dealer included) reaches both in this round, in the sender's order;
+    what `ma` broadcast in this round (`outA`) is what `mb` received from `ma` in this round, and vice versa.
+    Nothing is assumed about private messages, nor about the order in which anything is delivered. -/
+structure Net (ma mb : Nat) (ra rb : List Dl) (outA outB : List Bytes) : Prop where
+  third : ∀ o, o ≠ ma → o ≠ mb → stream ra (o, false) = stream rb (o, false)
+  a_to_b : stream rb (ma, false) = outA.map (Dl.bcast ma)
+  b_to_a : stream ra (mb, false) = outB.map (Dl.bcast mb)
+
+theorem streams_of_net {ma mb : Nat} (hab : ma ≠ mb) {ra rb : List Dl} {outA outB : List Bytes}
+    (N : Net ma mb ra rb outA outB) (ZA ZB : List Dl)
+    (hA : ∀ c : Nat × Bool, stream ZA c = if c.2 = true then [] else if c.1 = ma then outA.map (Dl.bcast ma) else stream ra c)
+    (hB : ∀ c : Nat × Bool, stream ZB c = if c.2 = true then [] else if c.1 = mb then outB.map (Dl.bcast mb) else stream rb c) :
+    ∀ c, stream ZA c = stream ZB c := by
+  intro c
+  rw [hA c, hB c]
+  obtain ⟨o, p⟩ := c
+  cases p
+  · simp only [Bool.false_eq_true, if_false]
+    by_cases h1 : o = ma
+    · subst h1
+      rw [if_pos rfl, if_neg hab, N.a_to_b]
+    · rw [if_neg h1]
+      by_cases h2 : o = mb
+      · subst h2
+        rw [if_pos rfl, N.b_to_a]
+      · rw [if_neg h2]; exact N.third o h1 h2
+  · simp
+
+/-- **C07, agreement**: in one execution of Feldman-VSS-Qual, two honest participants that are not the dealer end
+    with the same public result — both fail, or both hold the same group public key and the same vector of public
+    key shares — whatever the dealer and the other participants send (privately or by broadcast, well formed or
+    not, in any round), and in whatever order each of the two receives the messages of a round. The only
+    assumptions are those of the property: reliable broadcast with round synchrony (`Net`, once per round), and that
+    the two participants themselves run the protocol (their broadcasts are the outputs of the state machine). -/
+theorem agreement (size threshold dealer ma mb : Nat) (hd : dealer < size) (hs : size ≤ 256)
+    (hma : ma < size) (hmb : mb < size) (hmad : ma ≠ dealer) (hmbd : mb ≠ dealer) (hab : ma ≠ mb)
+    (ra1 ra2 ra3 rb1 rb2 rb3 : List Dl)
+    (ba1 : ∀ e ∈ ra1, e.sender < size) (ba2 : ∀ e ∈ ra2, e.sender < size) (ba3 : ∀ e ∈ ra3, e.sender < size)
+    (bb1 : ∀ e ∈ rb1, e.sender < size) (bb2 : ∀ e ∈ rb2, e.sender < size) (bb3 : ∀ e ∈ rb3, e.sender < size)
+    (n1 : Net ma mb ra1 rb1 (bR1 (fresh O size threshold ma dealer) ra1) (bR1 (fresh O size threshold mb dealer) rb1))
+    (n2 : Net ma mb ra2 rb2 (bR2 (fresh O size threshold ma dealer) ra1 ra2) (bR2 (fresh O size threshold mb dealer) rb1 rb2))
+    (n3 : Net ma mb ra3 rb3 (bR3 (fresh O size threshold ma dealer) ra1 ra2 ra3)
+      (bR3 (fresh O size threshold mb dealer) rb1 rb2 rb3)) :
+    pubRes (final (fresh O size threshold ma dealer) ra1 ra2 ra3) =
+      pubRes (final (fresh O size threshold mb dealer) rb1 rb2 rb3) := by
+  have aiA : AInv (fresh O size threshold ma dealer) := ⟨inv_fresh size threshold ma dealer hmad, hma, fun h => by cases h⟩
+  have aiB : AInv (fresh O size threshold mb dealer) := ⟨inv_fresh size threshold mb dealer hmbd, hmb, fun h => by cases h⟩
+  apply agreement_pub size threshold dealer ma mb hd hs hma hmb hmad hmbd ra1 ra2 ra3 rb1 rb2 rb3 ba1 ba2 ba3 bb1 bb2 bb3
+  · exact streams_of_net hab n1 _ _ (fun c => (stream_zR _ aiA ra1 ra2 ra3 c).1) (fun c => (stream_zR _ aiB rb1 rb2 rb3 c).1)
+  · exact streams_of_net hab n2 _ _ (fun c => (stream_zR _ aiA ra1 ra2 ra3 c).2.1) (fun c => (stream_zR _ aiB rb1 rb2 rb3 c).2.1)
+  · exact streams_of_net hab n3 _ _ (fun c => (stream_zR _ aiA ra1 ra2 ra3 c).2.2) (fun c => (stream_zR _ aiB rb1 rb2 rb3 c).2.2)
 
 end Proofs.DkgAgree
